@@ -85,6 +85,7 @@ type replay struct {
 	LruOps  []lruOp           `json:"lru_ops,omitempty"`
 	History *recvdrv.History  `json:"history,omitempty"`
 	Pubsub  map[string]string `json:"pubsub,omitempty"`
+	Conc    *concObs          `json:"conc,omitempty"`
 }
 
 // ---------------------------------------------------------------------------
@@ -673,13 +674,14 @@ func main() {
 	c := &ctx{Ctx: vlib.Init("C09"), fails: map[string]int{}}
 	defer c.Finish()
 	c.Res.Exhaustive = true
-	c.Res.Rule = "(a) every sequence of update/remove over capacities 1..3 and cap+2 CIDs up to length 5 (quick) / 7 (thorough) is run on the real duplicate filter against a plain-slice reference; one representative per renaming of CIDs goes to the Coq model (exhaustive), plus long random sequences up to capacity 64; (b) seeded histories of 150..400 calls (Direct, Next, UncacheCid, late Close) over 70..200 CIDs on a real Receiver at the built-in capacity, and shorter ones at capacities 1..6, allow filters all/none/mod 2,3,5, address lists with filtering on/off; the op stream is made deterministic by a reference filter that predicts each delivery; (c) three loopback libp2p hosts: publisher, relay receiver with WithResend, receiver under test. Non-trivial = an LRU sequence with an eviction or a hit and a successful remove; a receiver history with deliveries and at least one duplicate, rejection or un-cache."
+	c.Res.Rule = "(a) every sequence of update/remove over capacities 1..3 and cap+2 CIDs up to length 5 (quick) / 7 (thorough) is run on the real duplicate filter against a plain-slice reference; one representative per renaming of CIDs goes to the Coq model (exhaustive), plus long random sequences up to capacity 64; (b) seeded histories of 150..400 calls (Direct, Next, UncacheCid, late Close) over 70..200 CIDs on a real Receiver at the built-in capacity, and shorter ones at capacities 1..6, allow filters all/none/mod 2,3,5, address lists with filtering on/off; the op stream is made deterministic by a reference filter that predicts each delivery; (c) three loopback libp2p hosts: publisher, relay receiver with WithResend, receiver under test; (d) overlapping calls on a real Receiver (two Directs of one CID against a full / an empty slot nobody reads, Direct pending across an UncacheCid), 20 seeded repetitions each, accepted by the model iff one linearisation explains the deliveries. Non-trivial = an LRU sequence with an eviction or a hit and a successful remove; a receiver history with deliveries and at least one duplicate, rejection or un-cache."
 	if c.Replay != "" {
 		c.runReplay()
 		return
 	}
 	c.lruCases()
 	c.recvCases()
+	c.concCases()
 	c.pubsubCases()
 }
 
@@ -713,6 +715,8 @@ func (c *ctx) runReplay() {
 		c.Eval()
 	case "pubsub":
 		c.pubsubCases()
+	case "conc":
+		c.concReplay(rp.Conc)
 	default:
 		panic("unknown replay kind")
 	}
